@@ -109,7 +109,10 @@ def _run(world: World, plan):
                 # the chunk that was between its grant and the counter when the limit changed was granted under the
                 # previous limit: it is booked at the instant of the change, before the change
                 pre = min(delta, fl['cap'])
-                events.insert(fl['idx'], ('g', fl['t'], pre, side))
+                if fl['prev'] == 0:
+                    events.insert(fl['idx'], ('g', fl['t'], pre, side))     # no limit before: nothing to judge it against
+                # under a positive previous limit the grant may have happened shortly before or (the consumer was still
+                # waiting inside the replaced limiter) shortly after the change: it is attributed to neither side
                 delta -= pre
                 world.probe('pair_chunk_in_flight_at_change')
             if delta:
@@ -140,8 +143,8 @@ def _run(world: World, plan):
             if 'rec' not in inflight and t is not None and t.state.VALUE.name in ('UPLOADING', 'DOWNLOADING'):
                 # one grant per connection can be in flight: 8192 bytes without a limit, at most one second's worth
                 # of the limit otherwise
-                inflight['rec'] = {'idx': len(events), 't': loop.time(),
-                                   'cap': 8192 if current['kbps'] == 0 else 1024 * current['kbps']}
+                inflight['rec'] = {'idx': len(events), 't': loop.time(), 'prev': current['kbps'],
+                                   'cap': 8192 if current['kbps'] == 0 else 128}
             current['kbps'] = ch['kbps']
             events.append(('c', loop.time(), ch['kbps']))
         t_end = loop.time() + 900.0
